@@ -1431,6 +1431,10 @@ impl<'c> Gen<'c> {
                 let limit = self.c.below(4) as i32;
                 out.push(Stmt::Let(w.clone(), None, self.small_i32(0)));
                 self.bind(&w, Ty::Int(IntTy::I32), false);
+                if let Some(v) = self.scopes.last_mut().and_then(|s| s.last_mut()) {
+                    // un-annotated literal: `{integer}` until defaulted, not a method receiver
+                    v.concrete = false;
+                }
                 let fuel = Expr::Bin(BinOp::Lt, Box::new(Expr::Var(w.clone())), Box::new(self.small_i32(limit)));
                 let cond = if self.c.chance(128) {
                     let saved = (self.prof.owning, self.prof.strings, self.prof.aggregates);
